@@ -206,7 +206,14 @@ def random_history(rng, faults, maxlen, nres=4, ncom=3):
             ops.append({"op": "F", "j": rng.randrange(FOREIGN_N), "c": rng.randrange(5)})
         else:
             ops.append({"op": "M", "p": rng.random() < 0.4, "a": rng.random() < 0.7})
-    return {"maxb": maxb, "par": par, "allow": allow, "ops": sanitize(ops, par, allow)}
+    h = {"maxb": maxb, "par": par, "allow": allow, "ops": sanitize(ops, par, allow)}
+    if rng.random() < 0.25:
+        # drive the cache through the module-level API (create_cache / filepaths / delete_files);
+        # create_cache has no allow_for_missing_files argument: the default (tolerant) applies
+        h["via_module"] = True
+        h["allow"] = True
+        h["ops"] = sanitize(ops, par, True)
+    return h
 
 
 def exhaustive_histories(depth, faults):
@@ -301,6 +308,11 @@ def check_history(ctx, h, mobs, iobs, pid, strict_order=True):
             disk_c = sorted(x for x in o["files"] if x.startswith("C."))
             if o["entries"] != disk_c:
                 viol.append("entries %s != cache files on disk %s" % (o["entries"], disk_c))
+            small = [x for x in o["entries"] if int(x.split(".")[1]) < 4 and int(x.split(".")[2]) < 3]
+            if "in_cache" in o and o["in_cache"] != small:
+                viol.append("in_cache() says %s but the entries are %s" % (o["in_cache"], small))
+            for mf in o.get("module_facts", []):
+                viol.append("module-level API: " + mf)
             if o["len"] != len(disk_c):
                 viol.append("len(cache)=%d but %d cache files on disk" % (o["len"], len(disk_c)))
             if op and op["op"] in ("G", "O") and o["res"][0] in ("P", "D"):
